@@ -91,5 +91,9 @@ History of misses (each led to an extension, after which the change is caught):
   for C09; S_C10d (timeouts rounded down to whole milliseconds) -> wall-clock C10 stages in microseconds with fractional
   timeouts; S_C14d (per-caller edge tokens: a stale callee-side guard removes the asker's next edge) -> model deviation
   TokenedEdges = FALSE whose 13-step TLC counterexample is replayed into the code.
+* Re-running all 52 changes after the model had grown (ask_join, armed on_run: the simulation draws other behaviours from the
+  same seed) lost S_C14b, which had been found by random generation only -> model deviation ScopedCleanupStop = FALSE (the
+  cleanup on_stop after an on_run error is outside the actor scope); its counterexample is replayed into the code. Detection
+  that rests on a deviation's counterexample does not depend on what the random generator happens to draw.
 """)
 print(len(rows), "seeds")
